@@ -84,6 +84,11 @@ def run_shard(ctx):
     ):
         ctx.run_given(st.tuples(strat, tail), body, ctx.share(n), name=name)
 
+    if not ctx.quick():
+        from .common import fuzz_campaign
+
+        ctx.run_plain(lambda: fuzz_campaign(ctx, "c13", 150000), "libfuzzer")
+
 
 def replay(ctx, payload):
     L = synthetic.extended_layout(layout()) if "SYN" in payload["type"] else layout()
